@@ -148,6 +148,11 @@ var NativeFS func(name, content string, mode int)
 // FilesRead lists the paths handed to os.ReadFile so far (engine only).
 func FilesRead() []string { return readLog }
 
+// LoopBound declares that, from here on, no single loop activation of the code under test may run
+// for more than n iterations: the engine reports a longer loop as a violation (non-termination, or
+// time not proportional to the input). Natively the replay watchdog plays that role.
+func LoopBound(n int) {}
+
 // Bound records a bound of the harness in the evidence.
 func Bound(name string, v int) {}
 
